@@ -8,6 +8,7 @@ import Mathlib.Tactic.Ring
 import Mathlib.Tactic.FieldSimp
 import Mathlib.Tactic.Linarith
 import Mathlib.Algebra.Order.Field.Basic
+import Mathlib.Algebra.BigOperators.Group.List.Basic
 import SharkVerif.Model.Kernels
 
 set_option linter.unusedSectionVars false
@@ -287,4 +288,32 @@ theorem fillMixed_in (cols : List (List β)) : ∀ (rest : List (List β)) (sx :
         rw [fillMixed_in cols rest (sx + bi.length) _ (i - bi.length) c hi' hc]
 
 end gram2
+end SharkVerif.Kernels
+
+namespace SharkVerif.Kernels
+section pointset
+variable {K : Type} [Field K]
+
+theorem foldl_add_eq_sum (l : List K) : l.foldl (· + ·) 0 = l.sum := by
+  rw [List.sum_eq_foldl]
+
+theorem matSum_tab {P : Type} (X Z : List P) (f : P → P → K) :
+    matSum (tab X Z f) = (X.map fun x => (Z.map fun z => f x z).sum).sum := by
+  unfold matSum tab
+  rw [foldl_add_eq_sum, List.map_map]
+  apply congrArg
+  apply List.map_congr_left
+  intro x _
+  simp only [Function.comp_def]
+  rw [foldl_add_eq_sum]
+
+/-- exchanging the two sums of a double list sum -/
+theorem sum_sum_comm {P Q : Type} (f : P → Q → K) : ∀ (X : List P) (Z : List Q),
+    (X.map fun x => (Z.map fun z => f x z).sum).sum = (Z.map fun z => (X.map fun x => f x z).sum).sum
+  | [], Z => by simp
+  | a :: X, Z => by
+      simp only [List.map_cons, List.sum_cons]
+      rw [sum_sum_comm f X Z, ← List.sum_map_add]
+
+end pointset
 end SharkVerif.Kernels
